@@ -133,7 +133,7 @@ def h_expr(ctx, expr, names, size, opts):
     for n in names:
         p.set_val(src(n), vals[n])
     p.run_model()
-    y = np.asarray(p.get_val('c.y')).reshape(-1)
+    y = np.array(np.asarray(p.get_val('c.y')).reshape(-1))      # a copy: the finite-difference reruns of the float replay overwrite the output vector
     want = np.asarray(_eval(expr, vals, ctx.np), dtype=object if ctx.sym else float).reshape(-1)
     ctx.eq('value', y, want, 1e-12)
     J = p.compute_totals(of=['c.y'], wrt=[src(n) for n in names], return_format='flat_dict')
@@ -185,4 +185,5 @@ def h_multi(ctx):
                 p.set_val('c.b', b)
                 return r
             ctx.deriv_matrix(f'd{o}/d{n}', J['c.' + o, 'c.' + n], np.asarray(p.get_val('c.' + o)).reshape(-1), v, fd, 1e-12)
+    p.run_model()
     ctx.observe('y1', p.get_val('c.y1'))
